@@ -19,6 +19,7 @@ static void roundtrip(int base) {
   char *s, *t; size_t len, i, j;
   int ab = base < 0 ? -base : base;
   callf("mpz_get_str", (int)base, 0); s = last_ret.str;
+  callf("mpz_get_str_buf", (int)base, 0);            /* the same into a caller buffer of exactly mpz_sizeinbase + 2 bytes that ends at a guard page */
   callf("mpz_sizeinbase", 0, ab);
   len = strlen(s);
   /* exactly what was written */
@@ -101,7 +102,7 @@ void drv_c06_misc(int tier, unsigned long seed, const char *extra) {
       for (j = 0; j < 40; j++) { int base = j % 2 ? 2 + (int)rnd_below(61) : -(2 + (int)rnd_below(35));
         callf("mpq_set_si", 0, (int64_t)rnd64() >> rnd_below(60), (uint64_t)(rnd64() >> rnd_below(60)) | 1); callf("mpq_canonicalize", 0);
         if (j % 5 == 0) callf("mpq_set_z", 0, 0);
-        callf("mpq_get_str", base, 0); { char *s = last_ret.str; callf("mpq_set_str", 0, s, base < 0 ? -base : base); rec_free_str(s); } }
+        callf("mpq_get_str_buf", base, 0); callf("mpq_get_str", base, 0); { char *s = last_ret.str; callf("mpq_set_str", 0, s, base < 0 ? -base : base); rec_free_str(s); } }
     }
     callf("mpz_clear", 0); callf("mpq_clear", 0); rec_quiesce(); }
 }
